@@ -83,10 +83,19 @@ func judge(c Case, w *vkit.W) {
 		}
 	}
 
-	got, err := date.DefaultParser(text, rule)
-	check("DefaultParser[string]", got, err, typed(err))
-	got, err = date.DefaultParser(w.Scratch(text), rule) // a reused caller buffer
-	check("DefaultParser[[]byte]", got, err, typed(err))
+	var got date.Date
+	var err error
+	if w.Flip() { // the order of the two instantiations alternates
+		got, err = date.DefaultParser(text, rule)
+		check("DefaultParser[string]", got, err, typed(err))
+		got, err = date.DefaultParser(w.Scratch(text), rule) // a reused caller buffer
+		check("DefaultParser[[]byte]", got, err, typed(err))
+	} else {
+		got, err = date.DefaultParser(w.Scratch(text), rule)
+		check("DefaultParser[[]byte]", got, err, typed(err))
+		got, err = date.DefaultParser(text, rule)
+		check("DefaultParser[string]", got, err, typed(err))
+	}
 	if v.Shape || len(text) < 4 {
 		// derived input types (constraint.ParserInput is ~string | ~[]byte)
 		got, err = date.DefaultParser(namedS(text), rule)
